@@ -215,6 +215,16 @@ def dict_method(ex, o, m, vals, fn, e, s):
                 return [Res(s1, SV(ot, ot.dt.some(v.z))), Res(s2, SV(ot, ot.dt.none))]
             return [Res(s1, v), Res(s2, ex.coerce(dflt, ft, s2))]
         raise Unbound('record.get with computed key')
+    if m == 'setdefault' and isinstance(t, TDict) and len(vals) == 2:
+        k = ex.coerce(vals[0], t.key, s)
+        has = z3.Select(d_dom(t, o.z), k.z)
+        s1 = s.copy().assume(has)
+        v1 = SV(t.val, z3.simplify(z3.Select(d_val(t, o.z), k.z)))
+        s1.type_facts(v1)
+        s2 = s.copy().assume(z3.Not(has))
+        dv = ex.coerce(vals[1], t.val, s2)
+        new = SV(t, d_store(t, o.z, k.z, dv.z))
+        return [Res(s1, v1)] + bind(ex.assign_container(fn.value, new, s2, e), lambda _v, s3: [Res(s3, dv)])
     if m == 'keys' and isinstance(t, TRec):
         return [Res(s, o)]     # only used for `key in d.keys()`
     if m == 'keys' and isinstance(t, TDict):
